@@ -5,7 +5,7 @@
    accepted; recorded as fixed in known_findings.json). Known class outside these theorems (genuine defect, see
    known_findings.json): max_concurrent_farms > 100 (the fetch is clamped to 100 entries, F-clamp). *)
 From MD.Model Require Import Base Ownable Epoch PoolMath Types PoolManager FarmManager Chain.
-From MD.Proofs Require Import ChainProofs AtomicProofs WeightProofs FarmProofs BankProofs TxFarm.
+From MD.Proofs Require Import ChainProofs AtomicProofs WeightProofs FarmProofs BankProofs TxFarm FarmLimit NonVacuity.
 
 (* creation: everything that is checked and recorded. The full reward is the farm's budget, nothing is claimed,
    emission rate = floor(reward / (end - start)), start/end within the allowed buffer, the creator is the owner,
@@ -119,6 +119,28 @@ Theorem C11_closing_transaction_refunds_exactly_the_remainder_to_the_owner : for
      \/ (forall a d, bal (w_bank w') a d = bal (w_bank w) a d)).
 Proof. exact close_farm_tx_balances. Qed.
 
+(* THE LIMIT OVER ALL HISTORIES: in every world reachable from genesis by any history of operations by any users (calls
+   between the contracts, automatic closing of expired farms at creation, claims, config updates - which can only raise the
+   limit -, rejected operations, injected faults), for every LP denom, the number of stored farms - a fortiori of unexpired
+   ones - is at most the configured max_concurrent_farms, as long as that limit is <= 100 (the page-size clamp of the
+   contract's own farm query; above it the claim is false: finding F-clamp). *)
+Theorem C11_never_more_farms_than_the_limit_in_any_reachable_world : forall g w ops lp,
+  genesis_world g = Ok w -> 0 <= amount_of (fm_create_fee (g_fm g)) ->
+  fm_max_farms (fm_cfg (w_fm (run w ops))) <= MAX_FARMS_LIMIT ->
+  Z.of_nat (List.length (filter (fun f => String.eqb (f_lp f) lp) (fm_farms (w_fm (run w ops)))))
+    <= fm_max_farms (fm_cfg (w_fm (run w ops))).
+Proof. exact reachable_farm_limit. Qed.
+
+(* one farm-manager message at a time: the invariant FL (count <= limit for every LP denom, when the limit is <= 100) is
+   preserved by EVERY message from EVERY sender *)
+Theorem C11_every_message_preserves_the_limit : forall w sender funds m s' msgs,
+  NoDup (map f_id (fm_farms (w_fm w))) ->
+  fm_execute w sender funds m = Ok (s', msgs) -> FL (w_fm w) -> FL s'.
+Proof. exact fm_execute_limit. Qed.
+
+Theorem C11_limit_example : limit_statement.
+Proof. exact limit_example. Qed.
+
 Print Assumptions C11_create_farm.
 Print Assumptions C11_farm_epochs_within_buffer.
 Print Assumptions C11_creation_takes_reward_plus_fee.
@@ -127,3 +149,6 @@ Print Assumptions C11_close_farm.
 Print Assumptions C11_auto_close_refunds_owner.
 Print Assumptions C11_expansion_transaction_moves_exactly_the_attached_coins.
 Print Assumptions C11_closing_transaction_refunds_exactly_the_remainder_to_the_owner.
+Print Assumptions C11_never_more_farms_than_the_limit_in_any_reachable_world.
+Print Assumptions C11_every_message_preserves_the_limit.
+Print Assumptions C11_limit_example.
